@@ -9,9 +9,11 @@
 -/
 import PygModel.Bump
 import PygProofs.Lemmas.BumpLemmas
+import PygProofs.Lemmas.MonthLemmas
+import PygProofs.Lemmas.TokenLemmas
 
 namespace Pyg.Props.C09
-open Pyg Pyg.Bump Pyg.Gen
+open Pyg Pyg.Bump Pyg.Gen Pyg.Greg
 
 /-! ### business days: the closed form of lines 407-418 against day-by-day counting (all t, all n) -/
 
@@ -154,5 +156,117 @@ theorem fixed_inverse (t k t' : Int) (h : checkRange (t + k) = .ok t') (ht : che
   rw [h.2]
   have : t + k + -k = t := by omega
   rw [this]; exact ⟨ht.1, rfl⟩
+
+/-! ### months, quarters, years: `_ymd(t.year + dy, t.month + dm, t.day)` on the generated `ym` / `ymd` -/
+
+/-- `ym` normalises any integer month into 1..12 and keeps the month count `12*y + m` (∀ y m ∈ ℤ) -/
+theorem ym_normal (y m : Int) :
+    1 ≤ (Gen.ym y m).2 ∧ (Gen.ym y m).2 ≤ 12 ∧ 12 * (Gen.ym y m).1 + (Gen.ym y m).2 = 12 * y + m := by
+  unfold Gen.ym; simp only []; omega
+
+/-- `'nm'` / `'nq'` / `'ny'` (any step `_ymd(t.year + dy, t.month + dm, t.day)`) from a date at midnight:
+the target month is `ym (y + dy) (m + dm)`; the day of month is kept when that month has it, otherwise the excess
+days roll into the following month.  For every start date `datetime` can represent. -/
+theorem month_keep_or_roll (y m d : Nat) (v : Valid y m d) (dy dm : Int) (y' m' : Nat)
+    (hym : Gen.ym ((y : Int) + dy) ((m : Int) + dm) = ((y' : Int), (m' : Int))) (hy' : 1 ≤ y' ∧ y' < 9999) :
+    applyStep (mkDate y m d) (.ymdShift dy dm) =
+      .ok (if d ≤ dim y' m' then mkDate y' m' d
+           else mkDate (nextMonth y' m').1 (nextMonth y' m').2 (d - dim y' m')) := by
+  have hn := ym_normal ((y : Int) + dy) ((m : Int) + dm)
+  rw [hym] at hn
+  have hd := dim_bounds y m v.2.2.1 v.2.2.2.1
+  have hv := v
+  unfold Valid at hv
+  simp only [applyStep, ymdOf_mkDate y m d v, ymdDate]
+  rw [ymd_small_day _ _ _ (by omega), hym]
+  exact mkMonthPlus_day y' m' d hy' (by omega) (by omega)
+
+/-- the instances the unit table produces: months, quarters (3 months) and years -/
+theorem month_units (n : Int) :
+    bumpUnit 'm' n = some (.ymdShift 0 n) ∧ bumpUnit 'q' n = some (.ymdShift 0 (3 * n)) ∧
+    bumpUnit 'y' n = some (.ymdShift n 0) :=
+  ⟨(unit_table n).2.2.1, (unit_table n).2.2.2.1, (unit_table n).2.2.2.2.1⟩
+
+-- 2000-01-31 + 1m: February 2000 has 29 days, the excess 2 days roll into March: 2000-03-02
+example : applyStep (mkDate 2000 1 31) (.ymdShift 0 1) = .ok (mkDate 2000 3 2) := ok_of_okVal (by decide +kernel)
+example : Valid 2000 1 31 ∧ Gen.ym (2000 + 0) (1 + 1) = (2000, 2) ∧ ¬ (31 ≤ dim 2000 2) := by decide
+
+/-- `+x` then `-x` returns to `t` for month / quarter / year steps when the day of month is ≤ 28 -/
+theorem month_inverse (y m d : Nat) (v : Valid y m d) (hd : d ≤ 28) (dy dm : Int) (y' m' : Nat)
+    (hym : Gen.ym ((y : Int) + dy) ((m : Int) + dm) = ((y' : Int), (m' : Int))) (hy' : 1 ≤ y' ∧ y' < 9999)
+    (hy : y < 9999) :
+    (applyStep (mkDate y m d) (.ymdShift dy dm)).bind (fun t' => applyStep t' (.ymdShift (-dy) (-dm)))
+      = .ok (mkDate y m d) := by
+  have hn := ym_normal ((y : Int) + dy) ((m : Int) + dm)
+  rw [hym] at hn
+  have hv := v
+  unfold Valid at hv
+  have hb' := dim_bounds y' m' (by omega) (by omega)
+  have hb := dim_bounds y m hv.2.2.1 hv.2.2.2.1
+  rw [month_keep_or_roll y m d v dy dm y' m' hym hy']
+  have c1 : d ≤ dim y' m' := by omega
+  simp only [c1, if_true, Except.bind]
+  have v' : Valid y' m' d := by unfold Valid; omega
+  have hback : Gen.ym ((y' : Int) + -dy) ((m' : Int) + -dm) = ((y : Int), (m : Int)) :=
+    ym_of_normal _ _ _ _ (by omega) (by omega) (by omega)
+  rw [month_keep_or_roll y' m' d v' (-dy) (-dm) y m hback (by omega)]
+  have c2 : d ≤ dim y m := by omega
+  simp only [c2, if_true]
+
+example : Valid 2023 11 28 ∧ Gen.ym (2023 + 0) (11 + 3) = (2024, 2) := by decide
+
+/-! ### compound tenors: the tokenizer loop applies the parts left to right -/
+
+/-- a compound tenor written as well-formed tokens `[sign]digits unit` one after the other (any number of parts,
+any digit strings, any unit letters of the `period` regex) is applied part by part, left to right -/
+theorem tenor_left_to_right (ks : List Tok) (wf : ∀ k ∈ ks, k.WF) (t : Int) :
+    bumpCs (ks.flatMap Tok.text) t = runToks t ks := by
+  induction ks generalizing t with
+  | nil => simp [bumpCs, loop, nextToken, signSplit, spanDigits, runToks]
+  | cons k ks ih =>
+    have wk : k.WF := wf k (by simp)
+    have ih' := fun t' => ih (fun x hx => wf x (by simp [hx])) t'
+    simp only [List.flatMap_cons, bumpCs, runToks, applyTok]
+    unfold loop
+    rw [nextToken_text k wk]
+    simp only []
+    have hlen : (ks.flatMap Tok.text).length < (k.text ++ ks.flatMap Tok.text).length := by
+      simp only [List.length_append, Tok.text, List.length_cons, List.length_nil]; omega
+    cases hb : bumpUnit k.unit k.value with
+    | none =>
+      simp only [Except.bind]
+      rw [loop_fuel _ ((ks.flatMap Tok.text).length + 1) _ _ hlen (by omega)]
+      exact ih' t
+    | some st =>
+      simp only []
+      cases applyStep t st with
+      | error e => rfl
+      | ok t' =>
+        simp only [Except.bind]
+        rw [loop_fuel _ ((ks.flatMap Tok.text).length + 1) _ _ hlen (by omega)]
+        exact ih' t'
+
+/-- non-vacuity: `'1y-3m2d'` is such a text, and from 2000-01-01 it gives 2000-10-03 -/
+example : ([⟨.none, ['1'], 'y'⟩, ⟨.minus, ['3'], 'm'⟩, ⟨.none, ['2'], 'd'⟩] : List Tok).flatMap Tok.text = "1y-3m2d".toList
+    ∧ (∀ k ∈ ([⟨.none, ['1'], 'y'⟩, ⟨.minus, ['3'], 'm'⟩, ⟨.none, ['2'], 'd'⟩] : List Tok), k.WF) := by decide
+example : bumpStr (mkDate 2000 1 1) "1y-3m2d" = .ok (mkDate 2000 10 3) := ok_of_okVal (by decide +kernel)
+
+/-- several bump arguments are likewise applied one after the other -/
+theorem args_left_to_right (t : Int) (a b : List BumpArg) :
+    dtBump t (a ++ b) = (dtBump t a).bind fun t' => dtBump t' b := by
+  induction a generalizing t with
+  | nil => rfl
+  | cons x xs ih =>
+    simp only [List.cons_append, dtBump]
+    cases bumpOne t x with
+    | error e => rfl
+    | ok t' => simp only [Except.bind]; exact ih t'
+
+/-- the named tenors resolve to their business-day text before tokenizing -/
+theorem named_resolve :
+    resolveNamed "spot".toList = "0b".toList ∧ resolveNamed "o/n".toList = "1b".toList ∧
+    resolveNamed "t/n".toList = "2b".toList ∧ resolveNamed "s/n".toList = "3b".toList ∧
+    resolveNamed "on".toList = "1b".toList ∧ resolveNamed "tn".toList = "2b".toList ∧
+    resolveNamed "sn".toList = "3b".toList := by decide
 
 end Pyg.Props.C09
